@@ -190,6 +190,17 @@ PROPS = {
              'distinct node table',
         level_note='backward_is_derivative is proved for tree-shaped circuits (…_partial); for DAGs the backward pass of the model is tied to '
                    'the implementation by the per-parameter comparison only. Trusted as for the other checks.',
+    ),    'C18': dict(
+        module='c18',
+        modules=['DeeprobModel.Props.C18', 'DeeprobModel.Props.Clt'],
+        theorems=['Deeprob.C18.cnet_eval', 'Deeprob.C18.cnet_normalised', 'Deeprob.C18.cnetWellFormed_sound', 'Deeprob.C18.cnetWellFormed_weights',
+                  'Deeprob.Clt.value_leafOK', 'Deeprob.Clt.up_normalised'],
+        fragments=[],
+        rule='binary data sets of five families (random, clustered, constant column, identical rows, sparse) x 2-8 variables x 4-150 '
+             'rows x the three learners (entropy-based fit, BDeu, BIC) with varying thresholds / equivalent sample sizes / candidate '
+             'cut counts; every binary row (2^n, enumerated): implementation value vs the independent routing semantics, vs the exact '
+             'model OR-tree value, total mass; structure validator; non-trivial = every learned network; distinct = distinct (data, learner, '
+             'arguments)',
     ),
 }
 
